@@ -29,7 +29,8 @@ pub enum Variant {
     Lin,
     /// two recursive calls in one expression
     Two,
-    /// capture types beyond integers: Vec<u64>, String, (u64, u64), [u64; 3], u64 counter
+    /// capture types beyond integers: Vec<u64>, String, (u64, u64), [u64; 3], u64 counter, and the unsized [u64] and str
+    /// (declared so in the capture list; the variables outside are a Vec<u64> and a String)
     Types,
     /// mixed argument types, compound argument expressions (if / block / call with inner commas),
     /// tuple return type, nested recursive call in argument position
@@ -86,9 +87,17 @@ enum Ty {
     Str,
     Pair,
     Arr3,
+    /// declared in the capture list as the unsized `[u64]` (the variable outside is a Vec<u64>: `&mut v` coerces)
+    Slice,
+    /// declared as the unsized `str` (the variable outside is a String)
+    StrSlice,
+    /// interior mutability behind a shared capture (and a type that may not cross threads)
+    CellU64,
+    /// reference-counted, single-threaded
+    RcVec,
 }
 
-const TY_ROT: [Ty; 5] = [Ty::Pair, Ty::Str, Ty::Arr3, Ty::VecU64, Ty::U64];
+const TY_ROT: [Ty; 9] = [Ty::Pair, Ty::Slice, Ty::CellU64, Ty::Str, Ty::Arr3, Ty::StrSlice, Ty::VecU64, Ty::RcVec, Ty::U64];
 
 impl Ty {
     fn name(self) -> &'static str {
@@ -98,6 +107,18 @@ impl Ty {
             Ty::Str => "String",
             Ty::Pair => "(u64, u64)",
             Ty::Arr3 => "[u64; 3]",
+            Ty::Slice => "[u64]",
+            Ty::StrSlice => "str",
+            Ty::CellU64 => "std::cell::Cell<u64>",
+            Ty::RcVec => "std::rc::Rc<Vec<u64>>",
+        }
+    }
+    /// type of the variable outside the macro
+    fn decl_name(self) -> &'static str {
+        match self {
+            Ty::Slice => "Vec<u64>",
+            Ty::StrSlice => "String",
+            t => t.name(),
         }
     }
     /// initial value of capture number `i`, an expression over `k0: u64`
@@ -115,6 +136,10 @@ impl Ty {
             Ty::Str => format!("format!(\"c{i}-{{}}\", k0 % 1000)"),
             Ty::Pair => format!("(k0 % 97, {p})"),
             Ty::Arr3 => format!("[k0 % 13, {p}, {i}]"),
+            Ty::Slice => format!("vec![k0 % 17, {p}, {i}, k0 % 3]"),
+            Ty::StrSlice => format!("format!(\"s{i}-{{:04}}\", k0 % 1000)"),
+            Ty::CellU64 => format!("std::cell::Cell::new(k0.wrapping_mul({p}) % 1009)"),
+            Ty::RcVec => format!("std::rc::Rc::new(vec![k0 % 19, {p}, {i}])"),
         }
     }
     /// `u64` digest of the capture; `n` names a `&T` / `&mut T` inside the body. Growing (mutable)
@@ -129,6 +154,10 @@ impl Ty {
             Ty::Str => format!("{n}.bytes().fold({n}.len() as u64, |acc, x| acc.wrapping_mul(131).wrapping_add(x as u64))"),
             Ty::Pair => format!("{n}.0.wrapping_mul(131).wrapping_add({n}.1)"),
             Ty::Arr3 => format!("{n}[0].wrapping_mul(131).wrapping_add({n}[1]).wrapping_mul(131).wrapping_add({n}[2])"),
+            Ty::Slice => format!("{n}.iter().fold({n}.len() as u64, |acc, x| acc.wrapping_mul(131).wrapping_add(*x))"),
+            Ty::StrSlice => format!("{n}.bytes().fold({n}.len() as u64, |acc, x| acc.wrapping_mul(131).wrapping_add(x as u64))"),
+            Ty::CellU64 => format!("{n}.get()"),
+            Ty::RcVec => format!("{n}.iter().fold(std::rc::Rc::strong_count({n}) as u64, |acc, x| acc.wrapping_mul(131).wrapping_add(*x))"),
         }
     }
     /// statement(s) mutating the capture from `h`; `n` names a `&mut T` inside the body
@@ -139,6 +168,10 @@ impl Ty {
             Ty::Str => format!("{n}.push(char::from(b'a' + (h.wrapping_mul({p}) % 26) as u8));"),
             Ty::Pair => format!("{n}.0 = {n}.0.wrapping_add(h); {n}.1 = {n}.1.wrapping_mul({p}).wrapping_add({n}.0);"),
             Ty::Arr3 => format!("{n}[(h % 3) as usize] = {n}[(h % 3) as usize].wrapping_mul({p}).wrapping_add(h);"),
+            Ty::Slice => format!("{n}[(h % 4) as usize] = {n}[(h % 4) as usize].wrapping_mul({p}).wrapping_add(h); {n}.swap(0, (h % 3 + 1) as usize);"),
+            Ty::StrSlice => format!("if h.wrapping_mul({p}) % 2 == 0 {{ {n}.make_ascii_uppercase(); }} else {{ {n}.make_ascii_lowercase(); }}"),
+            Ty::CellU64 => format!("{n}.set({n}.get().wrapping_mul({p}).wrapping_add(h));"),
+            Ty::RcVec => format!("if let Some(v) = std::rc::Rc::get_mut({n}) {{ v.push(h.wrapping_mul({p}) % 1000); }}"),
         }
     }
 }
@@ -275,7 +308,7 @@ impl Shape {
                 let ty = if is_trace {
                     Ty::VecU64
                 } else if self.variant == Variant::Types {
-                    TY_ROT[(i + code) % 5]
+                    TY_ROT[(i + code) % 9]
                 } else if kind == Cap::R {
                     Ty::U64
                 } else {
@@ -351,7 +384,8 @@ impl Shape {
         for c in &caps {
             let read = if c.is_trace { format!("{}.len() as u64", c.name) } else { c.ty.read(&c.name, c.kind == Cap::M) };
             l.push(format!("h = h.wrapping_mul({}).wrapping_add({});", c.prime, read));
-            if c.kind == Cap::M && !c.is_trace {
+            if (c.kind == Cap::M && !c.is_trace) || c.ty == Ty::CellU64 {
+                // (a Cell is written through a shared capture as well)
                 l.push(c.ty.mutate(&c.name, c.prime));
             }
         }
@@ -581,7 +615,7 @@ impl Shape {
                 "    let {}{}: {} = {};",
                 if c.kind == Cap::M { "mut " } else { "" },
                 c.name,
-                c.ty.name(),
+                c.ty.decl_name(),
                 init
             )
             .unwrap();
@@ -649,7 +683,7 @@ impl Shape {
                 "    let {}t_{}: {} = {};",
                 if c.kind == Cap::M { "mut " } else { "" },
                 c.name,
-                c.ty.name(),
+                c.ty.decl_name(),
                 init
             )
             .unwrap();
@@ -754,7 +788,7 @@ impl Shape {
         writeln!(w, "    // ---- macro version").unwrap();
         for c in &caps {
             let init = if c.is_trace { "Vec::new()".to_string() } else { c.ty.init(c.idx, c.kind == Cap::M) };
-            writeln!(w, "    let {}{}: {} = {};", if c.kind == Cap::M { "mut " } else { "" }, c.name, c.ty.name(), init).unwrap();
+            writeln!(w, "    let {}{}: {} = {};", if c.kind == Cap::M { "mut " } else { "" }, c.name, c.ty.decl_name(), init).unwrap();
         }
         writeln!(w, "    let mut buf: Vec<u64> = vec![k0 % 7, 3];").unwrap();
         writeln!(w, "    let data: Vec<u64> = (0..(inp[0] % 9 + 2)).map(|x| x * 7 + k0 % 5).collect();").unwrap();
@@ -793,7 +827,7 @@ impl Shape {
         writeln!(w, "    }}").unwrap();
         for c in &caps {
             let init = if c.is_trace { "Vec::new()".to_string() } else { c.ty.init(c.idx, c.kind == Cap::M) };
-            writeln!(w, "    let {}t_{}: {} = {};", if c.kind == Cap::M { "mut " } else { "" }, c.name, c.ty.name(), init).unwrap();
+            writeln!(w, "    let {}t_{}: {} = {};", if c.kind == Cap::M { "mut " } else { "" }, c.name, c.ty.decl_name(), init).unwrap();
         }
         writeln!(w, "    let mut t_buf: Vec<u64> = vec![k0 % 7, 3];").unwrap();
         let tcaps: Vec<String> = caps.iter().map(|c| format!("{}t_{}", if c.kind == Cap::R { "&" } else { "&mut " }, c.name)).collect();
